@@ -1402,7 +1402,11 @@ def solve_lbfgsb(ctx, case):
         ctx.check(abs(ff - F1) <= tol1, "final_f-is-objective-of-returned-model", f"{ff!r} vs {F1!r} tol {tol1:.3g}")
     ctx.check(F1 <= F0 + tol0 + tol1, "lbfgsb-never-returns-higher-objective", f"{F1!r} vs start {F0!r}")
     low = min(float(np.min(f)) for f in M.factor_matrices)
-    ctx.check(low >= lb, "factor-entries-respect-lower-bound", f"min entry {low} < {lb}")
+    # the bound is enforced by SciPy's projected steps; a step that ends on the bound in exact arithmetic may end one
+    # rounding error of the largest entry below it (seen: -1.3e-122 next to entries of 0.2 when maxfun stops the
+    # line search): stated tolerance eps * max|entry|
+    lb_tol = 2.220446049250313e-16 * max(float(np.max(np.abs(f))) for f in M.factor_matrices)
+    ctx.check(low >= lb - lb_tol, "factor-entries-respect-lower-bound", f"min entry {low} < {lb} - {lb_tol:.3g}")
     its = info.get("nit")
     if its is not None:
         ctx.check(int(its) <= case["solver"]["maxiter"], "iteration-limit-respected", f"{its}")
